@@ -378,6 +378,19 @@ pub fn do_build(wtxn: &mut RwTxn, db: RawDb, idx: u16, metric: Metric, dim: usiz
 /// Executes the history; appends the events to `out`. Runs on the calling thread (callers that
 /// want an n-thread rayon pool call this from inside `pool.install`).
 pub fn run_history(h: &History, hno: usize, cfg: &RunCfg, out: &mut Vec<Value>) -> RunStats {
+    run_history_with(h, hno, cfg, out, &[], &mut |_, _, _, _| Vec::new())
+}
+
+/// `preload` runs after the environment is created and the Reset event is emitted; it may fill the
+/// database (golden fixtures), emit its own events, and returns the dump the history starts from.
+pub fn run_history_with(
+    h: &History,
+    hno: usize,
+    cfg: &RunCfg,
+    out: &mut Vec<Value>,
+    extra_ids: &[u32],
+    preload: &mut dyn FnMut(&Env, RawDb, &mut Ctx, &mut Vec<Value>) -> RawDump,
+) -> RunStats {
     let mut stats = RunStats::default();
     let dir = tempfile::tempdir_in(work_tmp()).unwrap();
     let env = open_env(dir.path(), h.map_size);
@@ -387,7 +400,7 @@ pub fn run_history(h: &History, hno: usize, cfg: &RunCfg, out: &mut Vec<Value>) 
         w.commit().unwrap();
         db
     };
-    let mut ctx = Ctx::new(h, &[]);
+    let mut ctx = Ctx::new(h, extra_ids);
     let mut metric: BTreeMap<u16, Metric> = h.indexes.iter().map(|d| (d.idx, d.metric)).collect();
     let dims: BTreeMap<u16, usize> = h.indexes.iter().map(|d| (d.idx, d.dim)).collect();
     let mut committed_metric = metric.clone();
@@ -402,7 +415,7 @@ pub fn run_history(h: &History, hno: usize, cfg: &RunCfg, out: &mut Vec<Value>) 
     }));
 
     let mut wtxn: Option<RwTxn> = None;
-    let mut before: RawDump = Vec::new();
+    let mut before: RawDump = preload(&env, db, &mut ctx, out);
     // after an out-of-space error LMDB refuses every further use of the transaction (BadTxn):
     // the remaining operations of that transaction are skipped and a commit becomes an abort
     let mut dead = false;
